@@ -499,7 +499,43 @@ fn history(ctx: &mut Ctx, tag: &str, len: usize, idx_space: u64, seg_space: u64,
     }
 }
 
+/// minimised past failures (fixed defects): replayed first on every run
+fn corpus(ctx: &mut Ctx) {
+    let unhex = crate::canon::unhex;
+    // d1aee3c: slot (segment 3, index 7) created at position 0, referred to later without text, then overwritten
+    let hist = ["8344010b0703666f6f5200", "83440103075200", "8344010b070362617a5200", "83440103075200",
+        // position != index, two segments with the same index byte
+        "8344023800070362617207680252005201"];
+    let want = ["ok A666f6f -", "ok A666f6f -", "ok A62617a -", "ok A62617a -", "ok U[A626172,A62617a] -"];
+    let mut cache = AtomCache::new();
+    let mut got = vec![];
+    for (m, w) in hist.iter().zip(want.iter()) {
+        let (s, _) = dec_pair(&mut cache, &unhex(m));
+        if &s != w {
+            ctx.fail("c14-history-misresolved", &format!("corpus: {} read as {} instead of {} (history {})", m, s, w, hist.join(",")));
+        }
+        got.push(s);
+    }
+    ctx.tie("corpus", &format!("c14seq - {}", hist.join(",")), &got.join(";"));
+    ctx.prop("c14-sender-vs-spec", &format!("c14hist - {} A666f6f;A666f6f;A62617a;A62617a;U[A626172,A62617a]", hist.join(",")), "ok");
+    // fc7340a: one 300-byte atom, odd reference count: LongAtoms is the high nibble of the only flag byte (0x18)
+    let long = OwnedTerm::Atom(Atom::new(atom_of_len(0, 300).as_str()));
+    if let Ok(b) = erltf::encode_with_dist_header(&long) {
+        if b.get(3) != Some(&0x18) {
+            ctx.fail("c14-long-atoms-flag", &format!("flag byte {:02x?} for one 300-byte atom", b.get(3)));
+        }
+    }
+    // 64b8e16: no atoms: still a header
+    if let Ok(b) = erltf::encode_with_dist_header(&OwnedTerm::Integer(5)) {
+        if b != vec![131, 68, 0, 97, 5] {
+            ctx.fail("c14-zero-atoms-header", &hex(&b));
+        }
+    }
+    ctx.count("corpus_cases");
+}
+
 pub fn run(ctx: &mut Ctx) {
+    corpus(ctx);
     // A. encoder: atom counts (both parities, the limit), lengths (short/long/over the limit)
     let counts: Vec<usize> = if ctx.thorough { (0..=40).chain([63, 64, 127, 128, 129, 200, 253, 254, 255, 256, 257, 300]).collect() }
         else { vec![0, 1, 2, 3, 4, 5, 6, 7, 8, 9, 15, 16, 127, 128, 254, 255, 256, 300] };
